@@ -170,6 +170,12 @@ fn n_hdr_getters_many_tags() {
                     let want_rest: Vec<usize> = walk[j.min(walk.len())..].iter().map(|(o, _)| *o).collect();
                     assert_eq!(rest, want_rest, "iterator advanced by {j} continues the walk");
                     assert_eq!(rest_clone, want_rest, "clone taken after {j} steps continues the same walk");
+                    // provided Iterator methods agree with repeated next()
+                    let at = |t: Option<_>| t.map(|t: &_| t as *const _ as *const u8 as usize - base);
+                    assert_eq!(at(h.iter().nth(j)), walk.get(j).map(|(o, _)| *o), "nth({j})");
+                    assert_eq!(at(h.iter().skip(j).next()), walk.get(j).map(|(o, _)| *o), "skip({j}).next()");
+                    assert_eq!(h.iter().count(), walk.len(), "count()");
+                    assert_eq!(at(h.iter().last()), walk.last().map(|(o, _)| *o), "last()");
                 }
                 if present {
                     assert_eq!(getter_addr(&h, typ), Some(base + first_off));
